@@ -9,6 +9,16 @@ TRUST = ("Trusted base: clang 14 front end and its debug info, the LLVM-14 IR re
          "the rule tables documented in DESIGN.md. ")
 
 CLAIMS = {
+    "C13": dict(
+        category="other",
+        technique="static analysis: lockset balance over the start call tree, constant-propagating path walk of the start functions (error => stop, result in {0,1}), result-consumption rule, loop-progress rule, exact exploration of the parser state machines with NULL/uninitialised tracking of record fields (incl. by-value callees in the caller's abstract record), by-value double-free rule",
+        text=("Decides: all 281 contexts of the start call tree return with their entry lockset; error paths of both start functions call stop and results are 0/1; results of parser/"
+              "validation/registration functions are consumed; every parser loop consumes an event or counts; in 41 parser/registration functions no pointer field of a record under "
+              "construction is dereferenced, compared or freed while NULL/uninitialised on any abstract path (free helpers analysed in the caller's record); a record handed by value to "
+              "its free helper is not freed again. Memory release and raw byte noise inside libyaml are not decided."),
+        note=TRUST + "Allocation failure is out of scope; glib accessors are assumed to return non-NULL for non-NULL containers.",
+        design="DESIGN.md section 4, C13",
+    ),
     "C08": dict(
         category="other",
         technique="static analysis: who-may-write on the derived fields, per-iteration must-assign and guard-independence of the derivation, must-follow path rule (mutation -> derivation before unlock), path-sensitive walk with constant propagation for 'marked free => list emptied' incl. helper summaries",
